@@ -231,7 +231,7 @@ def worker(acc, shard, nshards, tier, seed):
         nontrivial = any(case.get(k) for k in ('window', 'penalty', 'psi', 'max_step', 'max_dist', 'use_pruning', 'only_ub', 'max_length_diff')) \
             or case.get('ndim', 1) > 1 or case.get('inner') == 'eu'
         acc.case(sub, nontrivial=bool(nontrivial))
-        if acc.states % 40009 == 1:
+        if not acc.samples or acc.states % 40009 == 1:
             acc.sample(case)
 
 
